@@ -1,6 +1,6 @@
 (* C19 — property theorems only (level: other/partial: the formatter itself is not modelled; the
    property is decided per input on the real formatter with these relations). *)
-From SwayV Require Import Base.Util C16.Model C16.Judge C19.Model C19.Spec C19.Proofs C19.Comments C19.CommentsProofs C19.Judge.
+From SwayV Require Import Base.Util C16.Model C16.Judge C19.Model C19.Spec C19.Proofs C19.Comments C19.CommentsProofs C19.Auto C19.AutoProofs C19.Judge.
 Open Scope N_scope.
 
 Theorem C19_tok_equiv_equivalence :
@@ -57,6 +57,54 @@ Example C19_example_partition :
   emitted [((3,8),0); ((10,12),2); ((20,30),1)] [0; 9; 9; 15; 40] = [((3,8),0); ((10,12),2); ((20,30),1)] /\
   emitted [((3,8),0); ((10,12),2); ((20,30),1)] [0; 11; 40] = [((3,8),0); ((20,30),1)].   (* 11 straddles: lost *)
 Proof. vm_compute. split; reflexivity. Qed.
+
+(* Whitespace irrelevance.  `auto_sig ucls s` is the significant-token sequence of the lexer model
+   computed by its position-free automaton form (C19/Auto.v; equality with `sig_of` of the model's and
+   of the real lexer's stream is checked exactly, per input, by the judge - not proved).
+   Side condition (decidable, `nonfusing ucls pre c`): after `pre` the lexer is at a token boundary
+   (mode Ground or a pending `/`, identifier, `r`, `_`, `0`, digits, suffix - not inside a literal,
+   comment, escape, `r#` or `0x`) and the next scalar `c` does not extend the pending token
+   (`/`: not `/` or `*`; identifier, `_`, numbers: not XID_Continue; `r`: neither `#` nor XID_Continue).
+   Then inserting - or, read right to left, removing - any run of ASCII whitespace there leaves the
+   significant tokens, hence the tok_equiv class, unchanged; abort behaviour included (both None). *)
+Theorem C19_sig_whitespace_irrelevant : forall ucls pre ws c post,
+  nonfusing ucls pre c = true -> Forall (fun w => ascii_ws w = true) ws ->
+  auto_sig ucls (pre ++ ws ++ c :: post) = auto_sig ucls (pre ++ c :: post).
+Proof. exact ws_irrelevant. Qed.
+Print Assumptions C19_sig_whitespace_irrelevant.
+
+Theorem C19_tok_equiv_whitespace_irrelevant : forall ucls pre ws c post a b,
+  nonfusing ucls pre c = true -> Forall (fun w => ascii_ws w = true) ws ->
+  auto_sig ucls (pre ++ ws ++ c :: post) = Some a -> auto_sig ucls (pre ++ c :: post) = Some b -> tok_equiv a b.
+Proof.
+  intros ucls pre ws c post a b Hn Hw Ha Hb. rewrite (ws_irrelevant ucls pre ws c post Hn Hw) in Ha.
+  rewrite Ha in Hb. inversion Hb. apply tok_equiv_refl.
+Qed.
+Print Assumptions C19_tok_equiv_whitespace_irrelevant.
+
+(* whitespace after the last token *)
+Theorem C19_whitespace_trailing : forall ucls s ws,
+  (match run ucls (init) s with Some st => pending (a_mode st) | None => false end) = true ->
+  Forall (fun w => ascii_ws w = true) ws -> auto_sig ucls (s ++ ws) = auto_sig ucls s.
+Proof. exact ws_trailing. Qed.
+Print Assumptions C19_whitespace_trailing.
+
+(* the side condition really discriminates: `a|b` fuses, `a|+`, `1|+`, `/|a` do not, `"a|b"` is inside a literal,
+   and without it the statement is false (`a b` vs `ab`) *)
+Example C19_example_nonfusing :
+  nonfusing (fun _ => 0) [97] 98 = false /\ nonfusing (fun _ => 0) [97] 43 = true /\
+  nonfusing (fun _ => 0) [49] 43 = true /\ nonfusing (fun _ => 0) [47] 97 = true /\
+  nonfusing (fun _ => 0) [47] 47 = false /\ nonfusing (fun _ => 0) [34; 97] 98 = false /\
+  auto_sig (fun _ => 0) [97; 32; 98] <> auto_sig (fun _ => 0) [97; 98].
+Proof. vm_compute. repeat split; try reflexivity. discriminate. Qed.
+(* the automaton agrees with the lexer model on a text with every token class *)
+Example C19_example_auto_is_model :
+  let s := [102;110;32;114;35;120;40;41;123;32;34;97;92;116;34;32;47;42;99;42;47;32;48;120;49;70;117;56;32;39;98;39;32;47;47;47;100;10;95;32;125;32;40] in
+  match lex (fun _ => 0) s with
+  | ROk (toks, _, _) => auto_sig (fun _ => 0) s = Some (fst (sig_of (indices 0 s) toks))
+  | _ => False
+  end.
+Proof. vm_compute. reflexivity. Qed.
 
 (* Non-vacuity: trailing comma, sorted single-brace import, escaped literal by value. *)
 Example C19_example_equiv :
